@@ -195,9 +195,8 @@ func TensorFromProto(tp *TensorProto) (tensor.Tensor, error) {
 		values, err = getDoubleData(tp)
 	case typeMap["BOOL"]:
 		values = getBoolData(tp)
-	default:
-		// At this moment the datatype is either UNDEFINED or some datatype we currently
-		// do not support.
+	case typeMap["UNDEFINED"]:
+		// The datatype was not specified: use whichever typed field is populated.
 		switch {
 		case len(tp.FloatData) > 0:
 			values, err = getFloatData(tp)
@@ -212,6 +211,9 @@ func TensorFromProto(tp *TensorProto) (tensor.Tensor, error) {
 		default:
 			return nil, ErrInvalidType
 		}
+	default:
+		// Some datatype we currently do not support.
+		return nil, ErrInvalidType
 	}
 
 	if err != nil {
